@@ -515,7 +515,9 @@ fn tier_for(prop: &str, tier: &str) -> Tier {
         _ => 25000,
     };
     if tier == "thorough" {
-        Tier { hists: base * 20, wall_s: 900 }
+        // sized so that an idle 16-core machine finishes the whole count inside the wall cap: what the thorough tier
+        // explores is then the same set of histories on every run (the cap only ever cuts it short on a slower box)
+        Tier { hists: base * 8, wall_s: 900 }
     } else {
         Tier { hists: base, wall_s: 100 }
     }
